@@ -210,7 +210,7 @@ func runUpgrade(r *hx.Run, rng *hx.Rng) string {
 				v, err = tv.Get()
 				switch {
 				case err == nil:
-					o.s = v
+					o.s = okVal(v)
 				case errors.Is(err, kvstore.ErrKeyNotFound):
 					o.s, err = 0, nil
 				}
